@@ -62,8 +62,10 @@ def formulas(T, R):
             f'=SUMIFS(B1:B{R - 1},{a},{T})', f'=COUNTIFS({a},{T},C1:C{R - 1},">1")', f'=AVERAGEIFS({b},{a},{T},C1:C{R + 1},">1")',
             # same number of rows but more columns: still a different size
             f'=SUMIFS(B1:C{R},{a},{T})', f'=AVERAGEIFS(B1:C{R},{a},{T})', f'=COUNTIFS({a},{T},B1:C{R},">1")',
-            f'=COUNTIFS({c},">1",{a},{T})']
-NF = 16
+            f'=COUNTIFS({c},">1",{a},{T})',
+            # a whole column as the sum range: aligned from ITS first row, wherever the criteria range starts
+            f'=SUMIF({a},{T},B:B)', f'=SUMIF(A2:A{R},{T},B:B)']
+NF = 18
 COUNT_SHAPES = {3, 6, 10, 14, 15}          # COUNTIFS shapes: GuardsSum does not apply to them
 
 
@@ -89,6 +91,7 @@ def expected(rec, R):
         out += [s12, len(sel12), s12, (s12 / len(sel12)) if sel12 else 'ERR']
     out += ['ERR', 'ERR', 'ERR', 'ERR', 'ERR', 'ERR']
     out += [None if sel12 == [-1] else len(sel12)]
+    out += [s_b, sum(target(i - 2) for i in sel if i >= 2)]
     return out
 
 
